@@ -110,7 +110,7 @@ type c14Hist struct {
 func runC14(c *ev.Ctx) {
 	c.Rule = "random Muxer call histories (AddFrame with VP8 / VP8L / ALPH-prefixed VP8 payloads of odd and even length, with and without options; SetFrameDisposeMode / " +
 		"SetFrameDuration incl. out-of-range indices; SetLoopCount / SetBackgroundColor / SetCanvasSize absent-exact-larger-smaller; SetICC/EXIF/XMP/AddChunk with nil, empty, " +
-		"odd, even blobs) in random order; oracles: what was put in (model of the accepted history), the independent RIFF walker, Demuxer, GetFeatures/DecodeConfig/Decode " +
+		"odd, even blobs) in random order; every fourth history hands its payloads over as adjacent sub-slices of one buffer (spare capacity = the next payload); oracles: what was put in (model of the accepted history), the independent RIFF walker, Demuxer, GetFeatures/DecodeConfig/Decode " +
 		"(second parser), libwebp for stills; distinct = (frame count class, payload kinds, still/animated, metadata subset, canvas mode, option classes)"
 	lwOK := lw.SelfTest() == nil
 	pool := c14Pool(rng(c, 0), 90)
@@ -194,6 +194,21 @@ func c14One(c *ev.Ctx, cs ev.Case, pool []c14Payload, lwOK bool) {
 	r := rng(c, cs.Idx+1)
 	m := mux.NewMuxer()
 	var h c14Hist
+	// arena mode (every fourth history): what is handed to the muxer is carved back to back, in call order, out of one
+	// buffer, so each slice's spare capacity is the next payload. The expectation keeps the pool's own copies: a muxer
+	// that writes past the end of a slice it was given damages the payload that follows, and the round trip shows it.
+	var arena []byte
+	if cs.Idx%4 == 3 {
+		arena = make([]byte, 0, 1<<18)
+	}
+	carve := func(b []byte) []byte {
+		if arena == nil || len(b) == 0 || len(arena)+len(b) > cap(arena) {
+			return b
+		}
+		s := len(arena)
+		arena = append(arena, b...)
+		return arena[s:len(arena)]
+	}
 	nf := 1
 	switch r.Intn(6) {
 	case 0, 1:
@@ -238,11 +253,11 @@ func c14One(c *ev.Ctx, cs ev.Case, pool []c14Payload, lwOK bool) {
 		ops = append(ops, func() {
 			var err error
 			if f.Nil {
-				err = m.AddFrame(f.P.Prefixed, nil)
+				err = m.AddFrame(carve(f.P.Prefixed), nil)
 				f.Opts = mux.FrameOptions{}
 			} else {
 				o := f.Opts
-				err = m.AddFrame(f.P.Prefixed, &o)
+				err = m.AddFrame(carve(f.P.Prefixed), &o)
 			}
 			if err == nil {
 				h.Frames = append(h.Frames, f)
@@ -280,9 +295,9 @@ func c14One(c *ev.Ctx, cs ev.Case, pool []c14Payload, lwOK bool) {
 		via := r.Intn(2)
 		insert(func() {
 			if via == 0 {
-				m.SetICCProfile(b)
+				m.SetICCProfile(carve(b))
 			} else {
-				m.AddChunk(mux.FourCCICCP, b)
+				m.AddChunk(mux.FourCCICCP, carve(b))
 			}
 			h.ICC = b
 			h.Ops = append(h.Ops, fmt.Sprintf("ICC(%d bytes nil=%v)", len(b), b == nil))
@@ -293,9 +308,9 @@ func c14One(c *ev.Ctx, cs ev.Case, pool []c14Payload, lwOK bool) {
 		via := r.Intn(2)
 		insert(func() {
 			if via == 0 {
-				m.SetEXIF(b)
+				m.SetEXIF(carve(b))
 			} else {
-				m.AddChunk(mux.FourCCEXIF, b)
+				m.AddChunk(mux.FourCCEXIF, carve(b))
 			}
 			h.EXIF = b
 			h.Ops = append(h.Ops, fmt.Sprintf("EXIF(%d bytes nil=%v)", len(b), b == nil))
@@ -306,9 +321,9 @@ func c14One(c *ev.Ctx, cs ev.Case, pool []c14Payload, lwOK bool) {
 		via := r.Intn(2)
 		insert(func() {
 			if via == 0 {
-				m.SetXMP(b)
+				m.SetXMP(carve(b))
 			} else {
-				m.AddChunk(mux.FourCCXMP, b)
+				m.AddChunk(mux.FourCCXMP, carve(b))
 			}
 			h.XMP = b
 			h.Ops = append(h.Ops, fmt.Sprintf("XMP(%d bytes nil=%v)", len(b), b == nil))
@@ -318,7 +333,7 @@ func c14One(c *ev.Ctx, cs ev.Case, pool []c14Payload, lwOK bool) {
 		id := mux.ChunkID(uint32('z') | uint32('z')<<8 | uint32('z')<<16 | uint32(byte('a'+r.Intn(26)))<<24)
 		b := mkblob()
 		insert(func() {
-			err := m.AddChunk(id, b)
+			err := m.AddChunk(id, carve(b))
 			h.Ops = append(h.Ops, fmt.Sprintf("AddChunk(zzz?, %d bytes) -> %v", len(b), err))
 			if err == nil && len(b) > 0 {
 				h.UnknownID, h.Unknown = id, b
